@@ -129,9 +129,13 @@ def _extract_loop():
             return False
         return bool(stores.get(name))
 
+    subscripted = {n.value.id for n in ast.walk(fn) if isinstance(n, ast.Subscript) and isinstance(n.value, ast.Name)}
+
     def kind(name):
         if is_int(name):
             return "int"
+        if name in subscripted:
+            return "pair"
         for v in stores.get(name, []):
             if isinstance(v, ast.Call) and "composition" in ast.unparse(v.func).lower():
                 return "composition"
@@ -185,7 +189,8 @@ def ranking(job):
 
     head = {}
     for c in carried:
-        head[c] = SInt(z3.Int("h_" + c)) if kinds[c] == "int" else build.comp(real("h_" + c), "weight") if kinds[c] == "composition" else real("h_" + c)
+        head[c] = (SInt(z3.Int("h_" + c)) if kinds[c] == "int" else build.comp(real("h_" + c), "weight") if kinds[c] == "composition"
+                   else (real("h_%s_0" % c), real("h_%s_1" % c)) if kinds[c] == "pair" else real("h_" + c))
     prec = real("prec")
     with Patches() as pt:
         build.assume_validator(pt)
@@ -240,7 +245,8 @@ def ranking(job):
                    % (test, lineno, kinds))
     job.vacuity["checked"] += 1
     if not cont:
-        job.vacuity["failed"].append("no continuing leaf of the loop body")
+        # the one-iteration harness could not follow this loop shape: no verdict from (a), the witnesses decide
+        job.errors.append("ranking harness: no continuing leaf (%s)" % shape)
 
 
 # ------------------------------------------------------------------------------------------------
